@@ -184,7 +184,8 @@ Variants      == { <<"1">>, <<"2">> }                              \* the harnes
 
 \* datetimes near the epoch.  Payload: digits of the wall-clock milliseconds, "@", then "n" (naive) or the signed
 \* UTC offset in milliseconds.  All numbers stay far below 2^31.
-WallPayloads == { <<"0">>, <<"1","0","0","0">>, <<"8","6","4","0","0","1","2","3">> }          \* 0, 1 s, 1 day + 123 ms
+WallPayloads == { <<"0">>, <<"1","0","0","0">>, <<"8","6","4","0","0","1","2","3">>,           \* 0, 1 s, 1 day + 123 ms
+                  <<"0","u","5","0","0">> }                                              \* 0 ms + 500 microseconds
 OffPayloads  == { <<"n">>, <<"+","0">>, <<"+","7","2","0","0","0","0","0">>, <<"-","3","6","0","0","0","0","0">> }
 DtzShapes    == {S(TzTag, w \o <<"@">> \o o) : w \in WallPayloads, o \in OffPayloads}
 
@@ -194,12 +195,18 @@ NatOf(ds)   == IF Len(ds) = 0 THEN 0 ELSE 10 * NatOf(SubSeq(ds, 1, Len(ds) - 1))
 NatChars(x) == IF x < 10 THEN <<DigitSeq[x + 1]>> ELSE NatChars(x \div 10) \o <<DigitSeq[(x % 10) + 1]>>
 IntChars(x) == IF x < 0 THEN <<"-">> \o NatChars(0 - x) ELSE NatChars(x)
 AtPos(p)    == CHOOSE i \in 1..Len(p) : p[i] = "@"
-WallMs(p)   == NatOf(SubSeq(p, 1, AtPos(p) - 1))
+\* an optional "u" + digits after the wall milliseconds: microseconds below the millisecond (1..999)
+HasSub(p)   == \E i \in 1..(AtPos(p) - 1) : p[i] = "u"
+UPos(p)     == CHOOSE i \in 1..(AtPos(p) - 1) : p[i] = "u"
+WallMs(p)   == NatOf(SubSeq(p, 1, (IF HasSub(p) THEN UPos(p) ELSE AtPos(p)) - 1))
+SubUs(p)    == IF HasSub(p) THEN NatOf(SubSeq(p, UPos(p) + 1, AtPos(p) - 1)) ELSE 0
 OffsetMs(p) == LET o == From(p, AtPos(p) + 1) IN
                IF o = <<"n">> THEN 0                                  \* naive: read as UTC
                ELSE IF o[1] = "-" THEN 0 - NatOf(Tail(o)) ELSE NatOf(Tail(o))
 \* the instant, in milliseconds since the epoch: what the prepared path sends and the literal must say
-EpochMs(p)  == WallMs(p) - OffsetMs(p)
+\* (a CQL timestamp has millisecond resolution: microseconds below it are dropped by truncation toward zero, the
+\* convention of DateType.serialize - so before the epoch a non-zero sub-millisecond part gives the NEXT millisecond)
+EpochMs(p)  == LET ms == WallMs(p) - OffsetMs(p) IN IF ms < 0 /\ SubUs(p) > 0 THEN ms + 1 ELSE ms
 
 Scalars ==
          {S(t, p) : t \in StrTags, p \in StrPayloads}
